@@ -17,13 +17,16 @@ fn quiet<R>(f: impl FnOnce() -> R + std::panic::UnwindSafe) -> Option<R> {
 fn same(p: &SetSketchParams, q: &SetSketchParams) -> bool { p.get_m() == q.get_m() && p.get_q() == q.get_q() && p.get_a() == q.get_a() && p.get_b() == q.get_b() }
 
 // cut: None = full dump; Some(n) = file truncated to n bytes; Some(usize::MAX) = file removed
-fn case(b: f64, m: u64, a: f64, q: u64, cut: Option<usize>) -> Option<(String, String)> {
-    let dir = std::env::temp_dir().join(format!("verif_c20_{}", std::process::id()));
+// dirsuffix: appended to the name of the dump directory (directory names with dots, trailing separators, ...)
+fn case(b: f64, m: u64, a: f64, q: u64, cut: Option<usize>) -> Option<(String, String)> { case_in("", b, m, a, q, cut) }
+fn case_in(dirsuffix: &str, b: f64, m: u64, a: f64, q: u64, cut: Option<usize>) -> Option<(String, String)> {
+    let root = std::env::temp_dir().join(format!("verif_c20_{}", std::process::id()));
+    let dir = root.join(format!("d{}", dirsuffix));
     let _ = std::fs::create_dir_all(&dir);
     let file = dir.join("parameters.json");
     let _ = std::fs::remove_file(&file);
     let p = SetSketchParams::new(b, m, a, q);
-    if p.dump_json(&dir).is_err() { let _ = std::fs::remove_dir_all(&dir); return Some(("dump_json failed on a writable directory".into(), "Ok".into())); }
+    if p.dump_json(&dir).is_err() { let _ = std::fs::remove_dir_all(&root); return Some(("dump_json failed on a writable directory".into(), "Ok".into())); }
     let full = std::fs::read(&file).unwrap();
     let res = match cut {
         None => {
@@ -44,7 +47,7 @@ fn case(b: f64, m: u64, a: f64, q: u64, cut: Option<usize>) -> Option<(String, S
             }
         }
     };
-    let _ = std::fs::remove_dir_all(&dir);
+    let _ = std::fs::remove_dir_all(&root);
     res
 }
 
@@ -68,7 +71,7 @@ fn verif_replay_c20() {
             return;
         }
         let cut = if w["cut"].is_null() { None } else if w["cut"] == "missing" { Some(usize::MAX) } else { Some(w["cut"].as_u64().unwrap() as usize) };
-        match case(w["b"].as_f64().unwrap(), w["m"].as_u64().unwrap(), w["a"].as_f64().unwrap(), w["q"].as_u64().unwrap(), cut) {
+        match case_in(w["dirsuffix"].as_str().unwrap_or(""), w["b"].as_f64().unwrap(), w["m"].as_u64().unwrap(), w["a"].as_f64().unwrap(), w["q"].as_u64().unwrap(), cut) {
             Some((o, e)) => out(true, w.clone(), o, e, 1),
             None => out(false, w.clone(), "as specified".into(), "".into(), 1),
         }
@@ -95,6 +98,14 @@ fn verif_replay_c20() {
         }
     }
     let params = [(1.001f64, 4096u64, 20.0f64, 65534u64), (1.5, 1, 1.0, 0), (1.123456789012345, u64::MAX, 0.000123456789012345, u64::MAX), (2.0, 17, 1e300, 3), (1.0000000001, 1 << 40, 123456.789, 255)];
+    // dump directories whose names look like files, are hidden, carry several dots or a trailing separator
+    for suf in [".json", ".v2", "_b1.001", ".d/", "/.hidden", "/parameters.json", "/a.b/c"] {
+        let (b, m, a, q) = params[0];
+        cases += 1;
+        if let Some((o, e)) = case_in(suf, b, m, a, q, None) { out(true, serde_json::json!({"dirsuffix": suf, "b": b, "m": m, "a": a, "q": q, "cut": null}), o, e, cases); return; }
+        cases += 1;
+        if let Some((o, e)) = case_in(suf, b, m, a, q, Some(7)) { out(true, serde_json::json!({"dirsuffix": suf, "b": b, "m": m, "a": a, "q": q, "cut": 7}), o, e, cases); return; }
+    }
     for &(b, m, a, q) in &params {
         cases += 1;
         if let Some((o, e)) = case(b, m, a, q, None) { out(true, serde_json::json!({"b": b, "m": m, "a": a, "q": q, "cut": null}), o, e, cases); return; }
